@@ -31,7 +31,11 @@ def chrom_seq(world, ci):
 def build_variants(world, ci, seq):
     out = []
     for v in world["chroms"][ci]["variants"]:
-        out.append(synth.make_variant(seq, v["pos"], v["kind"], v.get("len", 1), v.get("k", 1)))
+        var = synth.make_variant(seq, v["pos"], v["kind"], v.get("len", 1), v.get("k", 1))
+        if v.get("multi"):
+            # second ALT allele (SNVs only)
+            var.alts.append(synth.other_base(var.ref, 2))
+        out.append(var)
     return out
 
 
@@ -66,9 +70,8 @@ def materialize(world, scratch, vcf_name="in.vcf", phased_truth=False, tag="PS")
                 g = gt_of(world["haps"][s][c["name"]][vi])
                 if g is None:
                     calls.append({"GT": "./."})
-                elif g[0] == g[1] or not phased_truth:
-                    a = sorted(g)
-                    calls.append({"GT": f"{a[0]}/{a[1]}"})
+                elif len(set(g)) == 1 or not phased_truth or len(g) != 2:
+                    calls.append({"GT": "/".join(map(str, sorted(g)))})
                 else:
                     blk = world.get("truth_blocks", {}).get(s, {}).get(c["name"])
                     b = blk[vi] if blk else 0
